@@ -256,12 +256,6 @@ def _l16_signed_products(run: Run) -> None:
         def global_value(self, n):
             if isinstance(n, ast.Name) and n.id == "S":
                 return SNS()
-            if isinstance(n, ast.Name) and n.id == "_between_two_numbers_p":
-                st = next((x for x in pm.tree.body if isinstance(x, ast.Assign) and any(isinstance(t, ast.Name) and t.id == n.id for t in x.targets)), None)
-                pats = [c.value for c in ast.walk(st.value) if isinstance(c, ast.Constant) and isinstance(c.value, str)] if st is not None else []
-                if len(pats) != 2:
-                    self.fail(n, "the two number-separator patterns are not literal")
-                return [Rx(re.compile(pats[0])), Rx(re.compile(pats[1]))]
             return super().global_value(n)
 
         def hook_attr(self, base, attr, n):
@@ -330,6 +324,8 @@ def _l16_signed_products(run: Run) -> None:
                 if kw.get("evaluate", True) is not False or not all(isinstance(a, E) for a in args):
                     self.fail(n, "an evaluated product")
                 return mul(args)
+            if name == "re.compile" and len(n.args) == 1 and isinstance(n.args[0], ast.Constant) and isinstance(n.args[0].value, str) and not n.keywords:
+                return Rx(re.compile(n.args[0].value))  # the source's own pattern, applied to concrete text below
             if name == "str" and len(n.args) == 1 and "str" not in env:
                 v = self.ev(n.args[0], env, fns)
                 if isinstance(v, str):
